@@ -582,6 +582,9 @@ class Engine:
         g = n.generators[0]
         it = I.eval(g.iter, fr)
         seq = self.concrete_iter(I, it)
+        if seq is None and not g.ifs and isinstance(g.target, ast.Name) and isinstance(n.elt, ast.Name) \
+                and n.elt.id == g.target.id and kind in ("gen", "list"):
+            return it  # identity comprehension over a symbolic iterable
         if seq is None:
             h = self.contract.callees.get(("comprehension", n.lineno))
             if h:
